@@ -1400,6 +1400,23 @@ fn gen_diamond_decisions(layers: usize) -> String {
   s
 }
 
+/// `n` decisions, each requiring the next one through two `informationRequirement` elements that say the same
+/// (what a pair of "duplicate" faults makes of a chain; `Dmn.MB.dupChainDecisions`); the invocable is the first.
+fn gen_dup_chain(n: usize) -> String {
+  let mut s = String::from(XML_HEAD);
+  for l in 0..n {
+    s.push_str(&format!("<decision name=\"d{}\" id=\"_d{}\"><variable name=\"d{}\"/>", l, l, l));
+    if l + 1 < n {
+      for j in 0..2 {
+        s.push_str(&format!("<informationRequirement id=\"_r{}_{}\"><requiredDecision href=\"#_d{}\"/></informationRequirement>", l, j, l + 1));
+      }
+    }
+    s.push_str("<literalExpression><text>1</text></literalExpression></decision>");
+  }
+  s.push_str("</definitions>");
+  s
+}
+
 /// The same with knowledge models, and one decision `D` requiring the first knowledge model.
 fn gen_diamond_knowledge(layers: usize) -> String {
   let mut s = String::from(XML_HEAD);
@@ -1474,6 +1491,9 @@ fn big_cases(thorough: bool) -> Vec<Big> {
   let mut dia = |name: String, noun: &'static str, text: String, invocable: &'static str| v.push(Big { family: "diamond", name, noun, text, invocable });
   for layers in if thorough { vec![2, 6, 12, 16, 20, 24, 28, 32] } else { vec![2, 6, 24, 32] } {
     dia(format!("gen_diamond_decisions(layers={}): {} decisions", layers, 2 * layers), "diamond requirement graph of decisions", gen_diamond_decisions(layers), "d0_0");
+  }
+  for n in if thorough { vec![2, 6, 12, 16, 20, 24, 40, 64] } else { vec![2, 6, 40] } {
+    dia(format!("gen_dup_chain(decisions={}): every requirement written twice", n), "chain of decisions with every requirement written twice", gen_dup_chain(n), "d0");
   }
   for layers in if thorough { vec![2, 6, 12, 16, 20, 31] } else { vec![2, 6, 31] } {
     dia(format!("gen_diamond_knowledge(layers={}): {} knowledge models and a decision", layers, 2 * layers), "diamond requirement graph of knowledge models", gen_diamond_knowledge(layers), "D");
